@@ -18,8 +18,15 @@
      that keeps the node discipline, every request the node has read is answered exactly once by the time the close
      returns - with its real answer before, or with a dropped-packet error at the close - and the tracer keeps
      nothing; the real Tracer.Close is compared with the model on sequences closed with requests still waiting.
+   - C03_network_teardown (Node/Network.v): at the level of a workflow - an acyclic network of specification nodes
+     (C02) with any number of requests in flight - closing every node at ANY point of ANY run, each closed node
+     answering what it holds with the dropped-packet error, leaves nothing pending anywhere and has answered every
+     request that ever arrived at any node exactly once (real answer before, dropped-packet error or real answer
+     after); every answer ever given is the dropped-packet error, the node's own result, or the join of earlier
+     answers to the derived packets.
    PARTIAL: port and process teardown (port close with late listeners, exit hooks) reduce to closes of readers and
-   writers, which the first three theorems cover per writer, but their composition into a workflow is not modelled; they are enumerated on the implementation: src -> A -> B -> sink with
+   writers, which the first three theorems cover per writer, and to node closes (the two theorems above); that the
+   real teardown IS that composition is enumerated on the implementation: src -> A -> B -> sink with
    actions held open, a request brought to each point of its way (in A, in B, at the sink), with a
    pipelined second request and a request of another process on the same nodes, then one or two of
    ten teardown actions; every requester must return within 1.5 s with its real answer or a
@@ -27,7 +34,7 @@
 From Coq Require Import List Arith NArith ZArith Bool.
 From Uf Require Import Packet.Writer Packet.WriterProofs Packet.Teardown.
 From Coq Require Import Permutation.
-From Uf Require Node.Tracer Node.TracerProofs Node.Spec Node.Refine Node.CloseProofs.
+From Uf Require Node.Tracer Node.TracerProofs Node.Spec Node.Refine Node.CloseProofs Node.Network.
 Import ListNotations.
 
 Theorem C03_closed_all_answered : forall n ops,
@@ -71,3 +78,24 @@ Theorem C03_node_close_releases : forall ops r, Node.Spec.disciplined ops = true
   Node.Tracer.t_writes (Node.Tracer.t_close (Node.Tracer.t_run ops)) = [].
 Proof. exact Node.CloseProofs.close_releases_all. Qed.
 Print Assumptions C03_node_close_releases.
+
+(* ---- teardown of a whole workflow ---- *)
+Theorem C03_network_teardown : forall (ans : Type) (join : list ans -> ans) (drop : ans) (N : nat) ls,
+  let st := Network.run ans join drop N ls in
+  let st' := Network.teardown ans join drop N st in
+  (forall n, Network.n_q ans st' n = [] /\ Network.n_done ans st' n = Network.n_arr ans st n /\ NoDup (Network.n_done ans st' n))
+  /\ Network.ans_ok ans join drop (Network.n_der ans st') (Network.n_ans ans st').
+Proof. exact Network.teardown_any_run. Qed.
+Print Assumptions C03_network_teardown.
+
+(* non-vacuity: a diamond 0 -> {1, 2} -> 3 torn down with two requests in flight (one inside node 0's action, one
+   waiting for node 3): every node ends with nothing pending, the outside gets one answer per request *)
+Example C03_ex_network :
+  let run := Network.run nat (fun l => fold_right Nat.add 0 l) 999 4
+               [Network.LIn nat 0; Network.LIn nat 0; Network.LProc nat 0 100 [1; 2]; Network.LProc nat 1 10 [3]; Network.LProc nat 2 20 []; Network.LAns nat 2] in
+  let st' := Network.teardown nat (fun l => fold_right Nat.add 0 l) 999 4 run in
+  map (fun n => length (Network.n_q nat run n)) [0; 1; 2; 3] = [2; 1; 0; 1]
+  /\ map (fun n => Network.n_q nat st' n) [0; 1; 2; 3] = [[]; []; []; []]
+  /\ Network.n_out nat st' = [(1, 999); (0, 999)]
+  /\ Network.n_done nat st' 0 = [0; 1] /\ Network.n_done nat st' 3 = [4].
+Proof. vm_compute. repeat split; reflexivity. Qed.
